@@ -62,6 +62,8 @@ def add_iter(cr, D, zb, kind):
 	out[18] = ((b0 + v.size()) == e0) ? 1 : 0;
 	out[19] = ((it + n) > it) ? 1 : 0; out[20] = (it <= it) ? 1 : 0; out[21] = (it != (it + n)) ? 1 : 0;
 	{ auto jt = it; auto r1 = jt++; out[22] = jt - r1; auto r2 = jt--; out[23] = r2 - jt; }
+	out[26] = (it >= it) ? 1 : 0; out[27] = (it <= (it + n)) ? 1 : 0; out[28] = ((it + n) >= it) ? 1 : 0; out[29] = (it < it) ? 1 : 0; out[30] = (it > it) ? 1 : 0;
+	out[31] = (it == it) ? 1 : 0; out[32] = (it != it) ? 1 : 0; out[33] = ((it + n) < it) ? 1 : 0; out[34] = ((it + n) == it) ? 1 : 0;
 """ % dict(beg=beg, end=end, J=J)
     if kind == "mutable":
         body += "\tout[24] = (v.begin() == std::as_const(v).begin()) ? 1 : 0; out[25] = (std::as_const(v).begin() + m == it) ? 1 : 0;\n"
@@ -85,6 +87,9 @@ def add_iter(cr, D, zb, kind):
             (17, "it-begin"): A("m"), (18, "begin+size==end"): P.const(1),
             (19, "it+n>it"): P.const(gt), (20, "it<=it"): P.const(1), (21, "it!=it+n"): P.const(0 if nsign == ZERO else 1),
             (22, "post++"): P.const(1), (23, "post--"): P.const(1),
+            (26, "it>=it"): P.const(1), (27, "it<=it+n"): P.const(0 if nsign == NEG else 1), (28, "it+n>=it"): P.const(0 if nsign == NEG else 1),
+            (29, "it<it"): P.const(0), (30, "it>it"): P.const(0), (31, "it==it"): P.const(1), (32, "it!=it"): P.const(0),
+            (33, "it+n<it"): P.const(1 if nsign == NEG else 0), (34, "it+n==it"): P.const(1 if nsign == ZERO else 0),
         }
         if kind == "mutable":
             w[(24, "begin==cbegin")] = P.const(1)
@@ -129,7 +134,7 @@ def digits(k, zs, fs):
     return out
 
 
-POSITION_ONLY = {"size", "end-begin", "(begin+k)-begin", "(begin+a)-=b:pos", "it=jt:pos", "it<it+b", "iterator==const_iterator"}
+POSITION_ONLY = {"size", "end-begin", "(begin+k)-begin", "(begin+a)-=b:pos", "it=jt:pos", "it<it+b", "iterator==const_iterator", "it+b>it", "it<=it+b", "it+b>=it", "it<=it", "it>=it", "it>it", "it<it", "it!=it+b", "it==it+b", "it+b<it", "it+b<=it"}
 
 
 def add_flat(cr, D, zb, fam="O02.flat", one_key=None):
@@ -151,6 +156,8 @@ def add_flat(cr, D, zb, fam="O02.flat", one_key=None):
 	{ auto const& cv = v; out[13] = eaddr(cv.elements()[k], base); out[14] = eaddr(*(cv.elements().begin() + k), base); }
 	out[15] = ((es.begin() + a) < (es.begin() + a + b)) ? 1 : 0;
 	out[16] = ((std::as_const(v).elements().begin() + k) == (es.begin() + k)) ? 1 : 0;
+	{ auto it = es.begin() + a; auto jt = it + b; out[17] = (jt > it) ? 1 : 0; out[18] = (it <= jt) ? 1 : 0; out[19] = (jt >= it) ? 1 : 0; out[20] = (it <= it) ? 1 : 0;
+	  out[21] = (it >= it) ? 1 : 0; out[22] = (it > it) ? 1 : 0; out[23] = (it < it) ? 1 : 0; out[24] = (it != jt) ? 1 : 0; out[25] = (it == jt) ? 1 : 0; out[26] = (jt < it) ? 1 : 0; out[27] = (jt <= it) ? 1 : 0; }
 """
     a, b = A("a"), A("b")
 
@@ -165,6 +172,9 @@ def add_flat(cr, D, zb, fam="O02.flat", one_key=None):
             (13, "const elements()[k]"): at(k), (14, "const *(begin+k)"): at(k),
             (15, "it<it+b"): P.const(1),
             (16, "iterator==const_iterator"): P.const(1),
+            (17, "it+b>it"): P.const(1), (18, "it<=it+b"): P.const(1), (19, "it+b>=it"): P.const(1), (20, "it<=it"): P.const(1), (21, "it>=it"): P.const(1),
+            (22, "it>it"): P.const(0), (23, "it<it"): P.const(0), (24, "it!=it+b"): P.const(1), (25, "it==it+b"): P.const(0), (26, "it+b<it"): P.const(0),
+            (27, "it+b<=it"): P.const(0),
         })
 
     def wrap(w):
